@@ -20,6 +20,8 @@ def run(chk):
     from . import state_contracts
     state_contracts.create_checkpoint(chk, "C03", want=("C03",))
     state_contracts.consumer(chk, "C03")
+    from . import lockset as _L
+    _L.lock_order(chk, "C03.state.lock_order")
     state_contracts.completion_event_contract(chk, "C03")
     from . import context_contracts
     context_contracts.wait_validation(chk, "C03")
